@@ -102,6 +102,15 @@ fn run_case(case: &Case, ev: &Evidence) -> CaseResult {
 
     if !do_branch {
         // ---- ReInit -------------------------------------------------------------------------------
+        // a detached commit that another member built in the old epoch, before the ReInit commit (applied after the freeze below)
+        let early_detached: Option<Vec<u8>> = {
+            let mut c = stale_group.clone();
+            match guard(|| c.commit_builder().commit_time(t).build_detached()) {
+                Ok((_, secrets)) => secrets.to_bytes().ok(),
+                Err(e) if e.is_panic() => return Err(panic_failure(P, "build_detached before reinit", &e)),
+                Err(_) => None,
+            }
+        };
         let party = &mut w.parties[leader];
         let mut ext = ExtensionList::new();
         ext.set(mls_rs::Extension::new(EXT_TYPE.into(), vec![9, 9]));
@@ -144,6 +153,22 @@ fn run_case(case: &Case, ev: &Evidence) -> CaseResult {
                 Ok(_) => return Err(fail("old_group_commits_after_reinit|detached", format!("member {m}: build_detached succeeds on a re-initialised group"))),
                 Err(e) if e.is_panic() => return Err(panic_failure(P, "detached commit after reinit", &e)),
                 Err(e) => ev.class(&format!("old_group_frozen_detached:{}", e.class())),
+            }
+        }
+        // nor is a detached commit of the old epoch, built before the ReInit commit: applying it now would replace the frozen
+        // state by one without the pending re-init
+        if let Some(sec) = &early_detached {
+            let mut clone = w.parties[stale_member].g().clone();
+            match guard(|| clone.apply_detached_commit(mls_rs::group::CommitSecrets::from_bytes(sec)?).map(|_| ())) {
+                Ok(()) => {
+                    let thawed = guard(|| clone.commit_builder().commit_time(t).build()).is_ok();
+                    return Err(fail(
+                        "old_group_thawed_by_detached_commit",
+                        format!("member {stale_member}: a detached commit built before the ReInit commit applies to the re-initialised group (commit afterwards succeeds: {thawed})"),
+                    ));
+                }
+                Err(e) if e.is_panic() => return Err(panic_failure(P, "apply early detached commit after reinit", &e)),
+                Err(e) => ev.class(&format!("early_detached_refused_after_reinit:{}", e.class())),
             }
         }
         // a commit built by a lagging copy is refused too
